@@ -63,6 +63,8 @@ class Stats:
                 self.bump("strata_ok", t)
         if out.problems:
             kf = classify(cs.spec, out.problems) if classify else None
+            if kf is None:
+                kf = kf11(cs.spec, out.problems)
             p0 = out.problems[0]
             summ = "%s on `%s` %s" % (p0.get("kind"), "; ".join(e.text() for e in cs.spec.exprs),
                                       {k: v for k, v in p0.items() if k not in ("kind", "tb")})
@@ -78,6 +80,23 @@ class Stats:
         return {"evaluations": self.evaluations, "nontrivial_keys": sorted(self.keys),
                 "violations": self.violations, "counters": self.counters,
                 "samples": self.samples, "inconclusive": self.inconclusive}
+
+
+KF11_KINDS = ("value-mismatch", "differs-from-unpartitioned", "differs-from-unmapped",
+              "differs-from-plain", "output-structure", "exec-error", "contribution-multiset",
+              "output-coordinate-space")
+
+
+def kf11(spec, problems):
+    """KF-11: a needed swizzle was dropped because two rank orders spell the same tensor
+    name - attributed only when the probe on Header.make_swizzle saw exactly that happen
+    while this spec was compiled, and only for run-time symptoms of a wrong layout."""
+    from .. import hooks
+    if not hooks.swizzle_skipped_for(spec):
+        return None
+    if all(p.get("kind") in KF11_KINDS for p in problems):
+        return "KF-11"
+    return None
 
 
 def _short(msg):
